@@ -3,6 +3,7 @@ package jsonrpc2
 import (
 	"context"
 	"encoding/json"
+	"errors"
 	"fmt"
 	"net"
 	"sync"
@@ -40,6 +41,10 @@ type ContextMissingValueError struct {
 func (err ContextMissingValueError) Error() string {
 	return fmt.Sprintf("context missing value: %s", err.Key)
 }
+
+// ErrMissingResponse is returned by calls whose reply message contains
+// neither a result nor an error.
+var ErrMissingResponse = errors.New("missing result and error in reply message")
 
 type serviceContext string
 
@@ -183,6 +188,11 @@ func (r *Remote) Call(ctx context.Context, result interface{}, method string, pa
 	resp, err := r.receive(ctx, req.ID)
 	if err != nil {
 		return err
+	}
+	if resp.Response == nil {
+		// A reply must carry a result or an error. Anything else that made
+		// its way here (e.g. a message with only an id) is not a reply.
+		return ErrMissingResponse
 	}
 	return resp.UnmarshalResult(result)
 }
